@@ -812,6 +812,9 @@ pub fn report_executor_api(out: &mut Out, prop: &str) {
             }
         }
     }
+    for f in EXECUTOR_ACCESSOR_FNS {
+        table.insert(f.to_string(), executor_fn_coverage(f).unwrap_or("accessor (derived: `&self`, no RespValue in the signature — cannot change the keyspace or produce a reply)").to_string());
+    }
     out.extra.insert("executor_api_coverage(derived from src/redis/executor/mod.rs by build.rs)".into(), json!(table));
 }
 
@@ -1135,6 +1138,30 @@ pub fn gen_counter_cmd(rng: &mut Rng) -> Command {
 
 /// a glob pattern over the key alphabet (`a b c kk é`): fixed shapes and random strings of pattern
 /// bytes (valid UTF-8: the pattern is a `String` in `Command::Keys`)
+/// `[` + ~300 bytes of class body (+ `]` + tail, or left unclosed)
+pub fn long_class_pattern(rng: &mut Rng) -> String {
+    let mut p = String::from("[");
+    if rng.chance(1, 4) {
+        p.push('^');
+    }
+    const BODY: [&str; 10] = ["x", "y", "z", "0-9", "q-m", "\\]", "\\-", "w", "A-Z", "_"];
+    while p.len() < 300 {
+        let piece: &str = *rng.pick(&BODY);
+        p.push_str(piece);
+    }
+    match rng.below(4) {
+        0 => p.push_str("a"),
+        1 => p.push_str("a-k"),
+        _ => {}
+    }
+    match rng.below(3) {
+        0 => {}                    // unclosed: runs to the end of the pattern
+        1 => p.push_str("]"),
+        _ => p.push_str("]*"),
+    }
+    p
+}
+
 pub fn glob_pattern(rng: &mut Rng) -> String {
     const FIXED: [&str; 30] = [
         "a", "?", "??", "???", "a*", "*a", "*k", "k*", "k?", "?k", "[abc]", "[a-c]", "[c-a]", "[^a]", "[^a-b]*", "[ab", "[", "[]", "[^]", "\\a",
@@ -1142,6 +1169,11 @@ pub fn glob_pattern(rng: &mut Rng) -> String {
     ];
     if rng.chance(1, 2) {
         return rng.pick(&FIXED).to_string();
+    }
+    // a LONG class body, closed or not (300 bytes: a model that evaluated its recursive call twice per
+    // byte would never finish), with ranges, escapes and the key's first byte somewhere inside
+    if rng.chance(1, 12) {
+        return long_class_pattern(rng);
     }
     const PIECES: [&str; 14] = ["a", "b", "c", "k", "é", "*", "?", "[", "]", "^", "-", "\\", "x", "kk"];
     (0..rng.range(1, 5)).map(|_| *rng.pick(&PIECES)).collect()
@@ -1484,13 +1516,31 @@ pub fn do_step(out: &mut Out, s: &mut Sess, cmd: &Command, prop: &str, seq: &[St
             (Some(rv), None) if !has_binary_name(cmd) => enc_cmd(cmd, rv),
             _ => None,
         };
-        match xop {
-            Some(o) => {
+        // SETBIT / GETBIT / BatchSet / BatchGet / KEYS <pattern>: `Model.ExecutorX.execXC`
+        let xxop = match (&r, &parts) {
+            (Some(_), None) if xop.is_none() => enc_xcmd(cmd),
+            _ => None,
+        };
+        match (xop, xxop, if r.is_some() && parts.is_none() { stub_op(cmd) } else { None }) {
+            (Some(o), _, _) => {
                 let nexp = s.nexp();
                 out.op(format!("{} XC {} ;; {}", s.now, o, phys), format!("{} | {} | nexp={}", reply, phys, nexp));
                 out.count("xc:executor-transcription-op");
             }
-            None => {
+            (None, Some(o), _) => {
+                let nexp = s.nexp();
+                out.op(format!("{} X{} ;; {}", s.now, o, phys), format!("{} | {} | nexp={}", reply, phys, nexp));
+                out.count("xc:executor-transcription-xop");
+            }
+            (None, None, Some((o, modelled_reply))) => {
+                // a stub: the transcription says the keyspace is not touched beyond `get_value(key)`;
+                // the reply is compared where the stub looks at a key
+                let nexp = s.nexp();
+                let shown = if modelled_reply { reply.clone() } else { "?".to_string() };
+                out.op(format!("{} XS {} ;; {}", s.now, o, phys), format!("{} | {} | nexp={}", shown, phys, nexp));
+                out.count("xc:executor-transcription-stub");
+            }
+            (None, None, None) => {
                 out.op(format!("{} XADOPT ;; {}", s.now, phys), "xadopt".to_string());
                 out.count("xc:adopt");
             }
@@ -1533,6 +1583,30 @@ pub fn do_step(out: &mut Out, s: &mut Sess, cmd: &Command, prop: &str, seq: &[St
         );
     }
     StepOut { op: opline, reply, before, after, is_err, read_only: ro, modelled }
+}
+
+/// the stub arms of `CommandExecutor::execute` as `Model.ExecutorX.StubCmd`: the op text and whether
+/// the transcription also models the reply (it does for the arms that look at a key)
+pub fn stub_op(cmd: &Command) -> Option<(String, bool)> {
+    let key_stub = |tag: &str, k: &String| Some((format!("{} {}", tag, hk(k)), true));
+    match cmd {
+        Command::ObjectEncoding(k) => key_stub("OBJENC", k),
+        Command::ObjectRefCount(k) => key_stub("OBJREF", k),
+        Command::ObjectIdleTime(k) => key_stub("OBJIDLE", k),
+        Command::ObjectFreq(k) => key_stub("OBJFREQ", k),
+        Command::DebugObject(k) => key_stub("DEBUGOBJ", k),
+        // arms that do not mention `self.data` / `self.expirations`
+        Command::Ping(_) | Command::Info | Command::Time | Command::Select(_) | Command::Echo(_) | Command::FunctionFlush
+        | Command::CommandCommand | Command::CommandCount | Command::ClientSetName(_) | Command::ClientGetName
+        | Command::ClientId | Command::ClientInfo | Command::ObjectHelp | Command::DebugSleep(_) | Command::DebugSet(_, _)
+        | Command::Wait(_, _) | Command::ConfigGet(_) | Command::ConfigSet(_, _) | Command::ConfigResetStat
+        | Command::Auth { .. } | Command::AclWhoami | Command::AclList | Command::AclUsers | Command::AclGetUser { .. }
+        | Command::AclSetUser { .. } | Command::AclDelUser { .. } | Command::AclCat { .. } | Command::AclGenPass { .. }
+        | Command::AclDryrun { .. } | Command::AclLog { .. } | Command::AclLogReset | Command::Unknown(_) => {
+            Some((format!("CONST {}", variant_info(cmd).0), false))
+        }
+        _ => None,
+    }
 }
 
 /// start a fresh executor; emits the RESET line
